@@ -18,18 +18,44 @@ def shapes_cycle():
         i += 1
 
 
-def make_net(M, g: G.NetGen, shape, rng, random_ops=True):
+USER_KINDS = {"prob": 0.0}  # set by a check whose oracle knows the user-defined kinds (vf/userkinds.py)
+
+
+def numpy_param_forms(desc, rng):
+    """Numeric element parameters held as NumPy values instead of Python floats (read from a .mat / .npy
+    file): 0-d arrays or numpy.float64 for any parameter, length-1 arrays for turn rates.  Only for
+    networks that are stepped with the NumPy engine.  Returns a param_override for desc.build."""
+    import numpy as np
+
+    po = {}
+    for l in desc["links"]:
+        for a in ("lam", "L", "rho_max", "rho_crit", "v_free", "a", "beta"):
+            if rng.random() < 0.4:
+                x = float(l[a])
+                k = rng.random()
+                po[(l["id"], a)] = np.array([x]) if (a == "beta" and k < 0.5) else (np.array(x) if k < 0.8 else np.float64(x))
+    for o in desc["origins"]:
+        if o.get("C") is not None and rng.random() < 0.4:
+            po[(o["id"], "C")] = np.array(float(o["C"]))
+    return po
+
+
+def make_net(M, g: G.NetGen, shape, rng, random_ops=True, numpy_params=False):
     if shape == "allkinds":
         desc = g.all_kinds_network()
         shp = "allkinds"
     else:
         shp, desc = g.network(shape)
+    if USER_KINDS["prob"] and rng.random() < USER_KINDS["prob"]:
+        G.add_user_kinds(desc, rng)
     ops = D.random_ops(desc, rng) if (random_ops and rng.random() < 0.7) else None
-    built = D.build(M, desc, ops)
+    po = numpy_param_forms(desc, rng) if (numpy_params and rng.random() < 0.2) else None
+    built = D.build(M, desc, ops, param_override=po)
+    built.numpy_valued_parameters = bool(po)
     return shp, desc, built
 
 
-def mutate_params_inplace(built, desc, rng):
+def mutate_params_inplace(built, desc, rng, prefer=None):
     """Changes parameters of the live element objects in place (plain public attributes) and
     mirrors the change in `desc`; returns a short label.  A memo of anything derived from the
     parameters that is not refreshed would make the next step disagree with the reference."""
@@ -37,6 +63,8 @@ def mutate_params_inplace(built, desc, rng):
 
     ins, outs, org, dst = topology(desc)
     kind = rng.choice(("scale_turnrates", "change_turnrates", "lanes", "length", "fd", "capacity", "flow_equation", "flow_equation"))
+    if prefer and rng.random() < 0.6:
+        kind = rng.choice(prefer)
     if kind == "flow_equation" and not any(o["kind"] in ("ramp", "simple") for o in desc["origins"]):
         kind = "fd"
     if kind == "scale_turnrates":
@@ -94,7 +122,8 @@ def replace_elements_inplace(M, built, desc, rng):
     ins, outs, org, dst = topology(d)
     kind = rng.choice(("link", "link", "origin", "dest"))
     if kind == "link":
-        l = rng.choice(d["links"])
+        fed = [x for x in d["links"] if x["up"] in org]  # links fed by an origin: its flow law reads their parameters
+        l = rng.choice(fed) if (fed and rng.random() < 0.6) else rng.choice(d["links"])
         l["N"] = rng.choice((1, 2, 3))
         l["lam"] = rng.choice((1, 2, 3, 4))
         l["L"] = round(rng.uniform(0.4, 1.6), 3)
@@ -224,9 +253,35 @@ def grow_network_inplace(M, built, desc, rng):
     return d, f"{kind} via {form}"
 
 
+def close_link_inplace(M, built, desc, rng):
+    """A road is closed on the live (already stepped) network: the library has no remove call, the edge is
+    removed from the networkx graph the network hands out (`net.G.remove_edge`).  Only where the network
+    stays valid (the tail keeps another leaving link, the head another entering link).
+    Returns (desc', label) or (desc, None)."""
+    import copy
+
+    from vf.refmodel import topology
+
+    ins, outs, org, dst = topology(desc)
+    cand = [l for l in desc["links"] if len(outs[l["up"]]) >= 2 and len(ins[l["down"]]) >= 2 and l["up"] != l["down"]]
+    if not cand:
+        return desc, None
+    l = rng.choice(cand)
+    d = copy.deepcopy(desc)
+    d["links"] = [x for x in d["links"] if x["id"] != l["id"]]
+    if not G.is_valid_desc(d):
+        return desc, None
+    graph = rng.choice((lambda n: n.G, lambda n: n.graph))(built.net)
+    graph.remove_edge(built.nodes[l["up"]], built.nodes[l["down"]])
+    built.closed_link = built.links[l["id"]]
+    del built.links[l["id"]]
+    built.desc = d
+    return d, "link closed through net.G"
+
+
 def numpy_steps(M, rec, rng, n_nets, draws=3, opts_prob=0.0, on_case=None, regimes=None,
                 before_case=None, mutate_prob=0.35,
-                scalar_shapes=("vec1", "0d", "float"), via_prob=0.2):
+                scalar_shapes=("vec1", "0d", "float"), via_prob=0.2, mutate_prefer=None):
     """n_nets generated valid networks x `draws` value draws stepped with the NumPy
     engine from user arrays."""
     NE, CE = drive.engines(M)
@@ -234,9 +289,13 @@ def numpy_steps(M, rec, rng, n_nets, draws=3, opts_prob=0.0, on_case=None, regim
     sh = shapes_cycle()
     for _ in range(n_nets):
         shape = next(sh)
-        shp, desc, built = make_net(M, g, shape, rng)
+        shp, desc, built = make_net(M, g, shape, rng, numpy_params=True)
+        if built.numpy_valued_parameters:
+            rec.count("networks_with_numpy_valued_parameters")
         rec.seen("shapes", shp)
         rec.seen("net_signatures", D.signature(desc))
+        if any(o.get("user") for o in desc["origins"]) or any(l.get("user_cap") is not None or l.get("user_reorder") for l in desc["links"]):
+            rec.count("networks_with_user_defined_element_kinds")
         keep_engine = NE() if rng.random() < 0.5 else None  # one engine object for all steps of this network
         for k in range(draws):
             reg = regimes[k % len(regimes)] if regimes else None
@@ -276,7 +335,7 @@ def numpy_steps(M, rec, rng, n_nets, draws=3, opts_prob=0.0, on_case=None, regim
 
             desc2 = _copy.deepcopy(desc)
             built.desc = desc2
-            what = mutate_params_inplace(built, desc2, rng)
+            what = mutate_params_inplace(built, desc2, rng, mutate_prefer)
             regime, vals = g.values(desc2)
             pars = g.pars()
             rec.count("numpy_cases_after_inplace_parameter_change")
@@ -328,6 +387,23 @@ def numpy_steps(M, rec, rng, n_nets, draws=3, opts_prob=0.0, on_case=None, regim
                 rec.seen("network_growths", what)
                 case = {"desc": desc5, "vals": vals, "pars": pars, "opts": {}, "engine": "numpy", "regime": regime,
                         "shape": shp, "after_growth": what}
+                if before_case:
+                    before_case(case, built)
+                try:
+                    drive.do_step(built.net, drive.pick_via(rng, via_prob), rng=rng,
+                                  init_conditions=drive.np_init(built, vals, "vec1"), engine=(keep_engine or NE()), **drive.step_pars(pars))
+                except Exception:
+                    pass
+                if on_case:
+                    on_case(case, built)
+        if rng.random() < 0.3:
+            desc6, what = close_link_inplace(M, built, built.desc, rng)
+            if what:
+                regime, vals = g.values(desc6)
+                pars = g.pars()
+                rec.count("numpy_cases_after_a_link_was_closed")
+                case = {"desc": desc6, "vals": vals, "pars": pars, "opts": {}, "engine": "numpy", "regime": regime,
+                        "shape": shp, "after": what}
                 if before_case:
                     before_case(case, built)
                 try:
@@ -440,6 +516,8 @@ def symbolic_steps(M, rec, rng, symvals, n_nets, points=3, symtypes=("SX", "MX")
         shape = next(sh)
         shp, desc, built = make_net(M, g, shape, rng)
         rec.seen("shapes_sym", shp)
+        if any(o.get("user") for o in desc["origins"]) or any(l.get("user_cap") is not None or l.get("user_reorder") for l in desc["links"]):
+            rec.count("symbolic_networks_with_user_defined_element_kinds")
         for st in symtypes:
             pars = g.pars()
             for k in range(points):
@@ -478,7 +556,7 @@ def closed_loop(M, rec, rng, n_sims, steps, on_step=None, before_case=None):
         shape = next(sh)
         if s % n_plans in (1, 3):
             shape = "allkinds"  # the loops that do not re-initialise every element see every element kind
-        shp, desc, built = make_net(M, g, shape, rng)
+        shp, desc, built = make_net(M, g, shape, rng, numpy_params=True)
         _, vals = g.values(desc, "interior", allow_inf=False)
         pars = g.pars()
         ins, outs, org, dst = R.topology(desc)
@@ -586,7 +664,7 @@ def inplace_pairs(M, rec, rng, n_nets, before_case=None, on_case=None, allow_inf
     sh = shapes_cycle()
     for it in range(n_nets):
         shape = next(sh)
-        shp, desc, built = make_net(M, g, "allkinds" if it % 2 == 0 else shape, rng)
+        shp, desc, built = make_net(M, g, "allkinds" if it % 2 == 0 else shape, rng, numpy_params=True)
         pars = g.pars()
         eng = NE()
         _, A = g.values(desc, allow_inf=False)
